@@ -190,7 +190,7 @@ func cmdCheck(args []string) int {
 		return 2
 	}
 	known := loadKnown()
-	cfg := SolverCfg{fastTimeoutMs: 8000, slowTimeoutS: 20, seed: seed}
+	cfg := SolverCfg{fastTimeoutMs: 3000, slowTimeoutS: 25, seed: seed}
 	if tier == "thorough" {
 		cfg.fastTimeoutMs, cfg.slowTimeoutS = 20000, 120
 	}
@@ -206,7 +206,7 @@ func cmdCheck(args []string) int {
 		}
 	}
 	var wg sync.WaitGroup
-	sem := make(chan struct{}, 12)
+	sem := make(chan struct{}, 16)
 	for _, c := range units {
 		fn := P.findFunc(c.Pkg, c.Key)
 		if fn == nil {
@@ -251,6 +251,9 @@ func runUnit(P *Program, rep *Report, c *Contract, fn *ssa.Function, id string, 
 	}
 	for k := range e.havocCalls {
 		rep.Assume["callee without contract, havocked (sound): "+k] = true
+	}
+	for k := range e.usedTypeInvs {
+		rep.Assume["type invariant assumed on every object allocated before entry (wf of inputs): "+k] = true
 	}
 	for _, n := range e.notes {
 		rep.Notes = append(rep.Notes, shortFn(fn)+": "+n)
